@@ -144,7 +144,7 @@ def run_e2e(seed, n_cases):
             h["rho"] = res.get("rho")
             h["output"] = res.get("output")
             h["expected_output"] = next((pp.get("expected") for pp in progs if pp["name"] == h["program"]), None)
-            if h["class"] == "e2e-erasure":
+            if h["class"] in ("e2e-erasure", "e2e-erasure-verdict"):
                 tw = next((x for x in r["results"] if x["name"] == h["program"] + "_twin"), {})
                 h["expected_output"] = tw.get("output")
         r["programs"] = len(progs)
